@@ -91,6 +91,7 @@ def json_tag(tag):
     """Root-cause level normalisation of tags for the JSON properties."""
     if "duration-" in tag or "timestamp-" in tag:
         tag = strip_label(tag)
+    tag = _re.sub(r"timestamp-(utc|offset)-epoch$", "timestamp-epoch", tag)
     tag = _re.sub(r"bytes-(empty|nonempty)$", "bytes", tag)
     tag = tag.replace("enum-undefined-negative", "enum-undefined")
     tag = _re.sub(r"(%s)-(zero|pos|neg)(-beyond2p53)?$" % _INTS, r"\1", tag)
